@@ -664,6 +664,7 @@ class Opts:
         self.profile = profile
         self.track_sites = track_sites
         self.no_inline = set(no_inline)
+        self.precision = 'sym'      # Formatter::precision(): 'sym' (fork None / unknown), None, or a concrete usize
 
 
 # ----------------------------------------------------------------------------- interpreter
@@ -1079,7 +1080,9 @@ class Interp:
             base = fr.L.get(pl['local'])
             if isinstance(base, Ref):
                 return Ref(base.frame, base.local, list(base.proj) + [self.freeze_proj(st, fr, e) for e in proj[1:]])
-            if isinstance(base, SliceVal) and len(proj) == 1:
+            if isinstance(base, (SliceVal, Opaque)) and len(proj) == 1:
+                return base
+            if isinstance(base, Agg) and base.kind in ('strref', 'string', 'fmtargs') and len(proj) == 1:
                 return base
             raise Stop('reborrow of %r' % (base,))
         # a deref in the middle of the projection: resolve prefix to a Ref
